@@ -119,6 +119,10 @@ func runC08Seq(rc *RunCtx) *simkit.Violation {
 		return nil
 	}
 
+	prebuilt := map[string]*core.Label{}
+	for _, n := range validLabelNames {
+		prebuilt[n] = core.NewLabel(core.LabelDescriptor(model.NewLabelDescriptor(model.LabelContributor(contributor), model.LabelName(n))))
+	}
 	steps := t.Range(2, 10)
 	var trace []string
 	for i := 0; i < steps; i++ {
@@ -138,7 +142,13 @@ func runC08Seq(rc *RunCtx) *simkit.Violation {
 		case 0: // set
 			id := bundles[r][t.Choose(len(bundles[r]))]
 			curRepo, curName = r, name
-			tk, v := doOp(prop, w, cl, "set", setLabelFn(st, r, name, id))
+			setFn := setLabelFn(st, r, name, id)
+			if prebuilt[name] != nil && t.Bool(1, 3) {
+				// the assignment goes through a Label value built when the run started (and possibly used before)
+				setFn = setLabelWithFn(prebuilt[name], st, r, id)
+				w.Probe("set-through-prebuilt-label")
+			}
+			tk, v := doOp(prop, w, cl, "set", setFn)
 			if v != nil {
 				return v
 			}
